@@ -199,6 +199,7 @@ def check_template(sylt, tpl, bounds, stats, oracle="equiv"):
         res["cut"] += fk.cut_paths; res["undecided"] += fk.undecided
         for p in paths:
             res["paths_lua"] += 1
+            if p["kind"] == "undecided": res.setdefault("undecided_why", {}); res["undecided_why"][p.get("why", "")[:120]] = res["undecided_why"].get(p.get("why", "")[:120], 0) + 1
             if p["kind"] != "ok": continue
             if oracle == "equiv":
                 d = traces_differ(val_r["events"], val_r["outcome"], p["events"], p["outcome"])
